@@ -2,6 +2,7 @@ package props
 
 import (
 	"fmt"
+	mbits "math/bits"
 	"runtime/debug"
 
 	"github.com/openacid/low/bitmap"
@@ -103,9 +104,14 @@ func laneWords() []uint64 {
 
 func onesOf(w []uint64, buf []int32) []int32 {
 	buf = buf[:0]
-	for i := 0; i < 64*len(w); i++ {
-		if w[i>>6]>>uint(i&63)&1 == 1 {
-			buf = append(buf, int32(i))
+	for k, x := range w {
+		if x == 0 {
+			continue
+		}
+		for j := 0; j < 64; j++ {
+			if x>>uint(j)&1 == 1 {
+				buf = append(buf, int32(k*64+j))
+			}
 		}
 	}
 	return buf
@@ -177,7 +183,9 @@ func c02OneNamed(c *mc.Ctx, order int64, w []uint64, ones []int32, nameLen, name
 		run := int32(0)
 		for _, x := range w {
 			wantR = append(wantR, run)
-			run += naivePop(x)
+			if x != 0 {
+				run += naivePop(x)
+			}
 		}
 		wantR = append(wantR, run)
 	}
@@ -186,6 +194,9 @@ func c02OneNamed(c *mc.Ctx, order int64, w []uint64, ones []int32, nameLen, name
 	}
 	evals += 2
 	end := int32(64 * len(w))
+	// 64*len = 2^31 is not an int32: what "the next 1-bit" of the LAST 1-bit of a 2^25-word
+	// bitmap is cannot be stated, so it is not compared
+	endUnrepresentable := int64(64)*int64(len(w)) > 1<<31-1
 	if p1 == "" && p2 == "" {
 		bad := 0
 		for i := int32(0); i < n && bad < 4; i++ {
@@ -194,11 +205,12 @@ func c02OneNamed(c *mc.Ctx, order int64, w []uint64, ones []int32, nameLen, name
 			if i+1 < n {
 				wb = ones[i+1]
 			}
-			if a, b, p := sel32(w, s1, i); p || a != wa || b != wb {
+			skipB := endUnrepresentable && i+1 == n
+			if a, b, p := sel32(w, s1, i); p || a != wa || (b != wb && !skipB) {
 				c.Fail(order, "Select32", "Select32", cs(i), "", "")
 				bad++
 			}
-			if a, b, p := sel32r64(w, s2, r2, i); p || a != wa || b != wb {
+			if a, b, p := sel32r64(w, s2, r2, i); p || a != wa || (b != wb && !skipB) {
 				c.Fail(order, "Select32R64", "Select32R64", cs(i), "", "")
 				bad++
 			}
@@ -349,6 +361,11 @@ func c02Run(c *mc.Ctx) {
 				jobs = append(jobs, job{l, pat})
 			}
 		}
+		if mbits.UintSize == 64 {
+			// the top of the int32 position range: 2^25-1 and 2^25 words (64-bit builds)
+			jobs = append([]job{{1<<25 - 1, 10}, {1 << 25, 10}, {1 << 25, 9}}, jobs...) // first: they take longest
+			c.Add("bitmaps_of_2^31_bits", 2)
+		}
 		c.Par(len(jobs), func(ji int) {
 			if c.TooMany() {
 				return
@@ -426,6 +443,20 @@ func c02Judge(kind string, cs c02Case) (got, want string) {
 		return p + fmt.Sprint(s), fmt.Sprint(wantS)
 	case "IndexSelect32R64":
 		s, r, p := idxSel32R64(w)
+		if cs.Len >= 1<<20 {
+			// too long to print: name the first differing entry
+			if p == "" && eqI32(s, wantS) && eqI32(r, wantR) {
+				return "indexes match", "indexes match"
+			}
+			if p == "" && len(r) == len(wantR) {
+				for k := range r {
+					if r[k] != wantR[k] {
+						return fmt.Sprintf("select index %v, rank entry %d = %d", s, k, r[k]), fmt.Sprintf("select index %v, rank entry %d = %d", wantS, k, wantR[k])
+					}
+				}
+			}
+			return fmt.Sprintf("%sselect index %v, %d rank entries", p, s, len(r)), fmt.Sprintf("select index %v, %d rank entries", wantS, len(wantR))
+		}
 		return p + fmt.Sprint(s, r), fmt.Sprint(wantS, wantR)
 	}
 	i := cs.I
@@ -437,6 +468,10 @@ func c02Judge(kind string, cs c02Case) (got, want string) {
 		wb = ones[i+1]
 	}
 	want = fmt.Sprintf("(%d,%d)", ones[i], wb)
+	skipB := int64(64)*int64(len(w)) > 1<<31-1 && int(i)+1 == len(ones)
+	if skipB {
+		want = fmt.Sprintf("(%d,not representable)", ones[i])
+	}
 	var a, b int32
 	var p bool
 	switch kind {
@@ -451,6 +486,9 @@ func c02Judge(kind string, cs c02Case) (got, want string) {
 	}
 	if p {
 		return "panic", want
+	}
+	if skipB {
+		return fmt.Sprintf("(%d,not representable)", a), want
 	}
 	return fmt.Sprintf("(%d,%d)", a, b), want
 }
